@@ -80,6 +80,8 @@ def specs(tier, seed):
     for i, relay in enumerate(pick):
         forced = i >= nauto
         sess = {"qtype": None, "downenc": None, "lazy": rng.choice([0, 1])}
+        if i % 3 == 2:
+            sess["occupy"] = 10 + (i // 3) % 6      # userid 10..15: a hex LETTER leads every data query name
         if forced:
             sess["qtype"] = rng.choice(TYPEORDER)
             sess["downenc"] = rng.choice([None, "Base32", "Base64", "Base64u", "Base128", "Raw"])
